@@ -290,7 +290,9 @@ def unnum(x):
 NUMS = [("num", "0", "0"), ("num", "7", "7"), ("num", "-3", "-3"), ("num", "42", "42"), ("num", "1.5", "1.5"), ("num", "2.50", "2.5"),
         ("num", "0.25", "0.25"), ("num", "100", "100"), ("num", "12345678901", "12345678901"), ("num", "-0.5", "-0.5"),
         ("num", "12345678901234567890", "12345678901234567890"), ("num", "-9223372036854775808", "-9223372036854775808"),
-        ("num", "9007199254740993", "9007199254740993"), ("num", "-9007199254740993", "-9007199254740993"), ("num", "9223372036854775807", "9223372036854775807")]
+        ("num", "9007199254740993", "9007199254740993"), ("num", "-9007199254740993", "-9007199254740993"), ("num", "9223372036854775807", "9223372036854775807"),
+        # well-formed JSON numbers beyond the float64 range: exposed as written (D32)
+        ("num", "1e400", "1e400"), ("num", "-1E+999", "-1E+999"), ("num", "12345678901234567890.5e300", "12345678901234567890.5e300")]
 JKEYS = ["level", "msg", "status", "app", "n", "dur", "user.name", "http-status", "9lives", "a b", "é", "nested", "list", "size", "addr"]
 SVALS = ["info", "error", "warn", "", "GET /a", "a=b", 'q"uote', "back\\slash", "5", "5.5", "1m30s", "250ms", "5KB", "10.0.0.1", "ünï", "x y z", "new\nline"]
 
@@ -358,6 +360,14 @@ class JLine:
             i = rng.randrange(len(vals))
             prefix = "{" + "".join(f + sep for f in fields[:i])
             self.text = prefix + '"' + vals[i][0][:1]
+            self.ok = False
+            self.coq = "JBadObj %s" % fcoq(vals[:i])
+            self.complete = vals[:i]
+        elif malform == "badval" and vals:
+            # the value of field i is broken (below the top level for the composite ones): fields before i are complete, nothing of field i is exposed
+            i = rng.randrange(len(vals))
+            prefix = "{" + "".join(f + sep for f in fields[:i])
+            self.text = prefix + jrender_str(rng, vals[i][0]) + ":" + rng.choice(["tru", "-", '"abc', '{"in', "[", '{"a":{"b":nul', "[tru", '{"a":[{"'])
             self.ok = False
             self.coq = "JBadObj %s" % fcoq(vals[:i])
             self.complete = vals[:i]
